@@ -171,6 +171,49 @@ func registerConcretizing(ex *Exec) {
 		v, err := strconv.Atoi(cs)
 		return Tuple{C.BVConst(uint64(int64(v)), 64), errVal(ex, st, err)}, true
 	}
+	appendNum := func(signed bool) Intrinsic {
+		return func(ex *Exec, st *State, args []Value, call ssa.CallInstruction) (Value, bool) {
+			t := args[1].(*smt.Term)
+			base := int(ex.concreteInt(st, args[2]))
+			v := ex.splitPin(st, t, maxVals)
+			var txt string
+			if signed {
+				txt = strconv.FormatInt(int64(v), base)
+			} else {
+				txt = strconv.FormatUint(v, base)
+			}
+			dst := args[0].(Slice)
+			add := make([]Value, len(txt))
+			for i := range txt {
+				add[i] = C.BVConst(uint64(txt[i]), 8)
+			}
+			// append in place when capacity allows (this is what makes a shared scratch buffer observable)
+			if dst.Arr != 0 && dst.Len+len(add) <= dst.Cap {
+				ex.globalAccess(st, dst.Arr, dst.Off+dst.Len, true)
+				arr := append(Array(nil), st.Heap.get(dst.Arr).V.(Array)...)
+				copy(arr[dst.Off+dst.Len:], add)
+				st.Heap.put(dst.Arr, &Object{V: arr})
+				return Slice{dst.Arr, dst.Off, dst.Len + len(add), dst.Cap}, true
+			}
+			arr := make(Array, dst.Len+len(add))
+			if dst.Len > 0 {
+				copy(arr, st.Heap.get(dst.Arr).V.(Array)[dst.Off:dst.Off+dst.Len])
+			}
+			copy(arr[dst.Len:], add)
+			id := st.alloc(&Object{V: arr})
+			return Slice{id, 0, len(arr), len(arr)}, true
+		}
+	}
+	I["strconv.AppendUint"] = appendNum(false)
+	I["strconv.AppendInt"] = appendNum(true)
+	I["strconv.FormatInt"] = func(ex *Exec, st *State, args []Value, call ssa.CallInstruction) (Value, bool) {
+		v := ex.splitPin(st, args[0].(*smt.Term), maxVals)
+		return ex.strConst(strconv.FormatInt(int64(v), int(ex.concreteInt(st, args[1])))), true
+	}
+	I["strconv.FormatUint"] = func(ex *Exec, st *State, args []Value, call ssa.CallInstruction) (Value, bool) {
+		v := ex.splitPin(st, args[0].(*smt.Term), maxVals)
+		return ex.strConst(strconv.FormatUint(v, int(ex.concreteInt(st, args[1])))), true
+	}
 	I["strconv.ParseBool"] = func(ex *Exec, st *State, args []Value, call ssa.CallInstruction) (Value, bool) {
 		cs := ex.concreteStr(st, args[0].(Str), maxVals)
 		v, err := strconv.ParseBool(cs)
